@@ -49,7 +49,7 @@ class A(dns.rdata.Rdata):
         return cls(rdclass, rdtype, domain, address)
 
     def _to_wire(self, file, compress=None, origin=None, canonicalize=False):
-        self.domain.to_wire(file, compress, origin, canonicalize)
+        self.domain.to_wire(file, compress, origin, False)
         pref = struct.pack("!H", self.address)
         file.write(pref)
 
